@@ -1,4 +1,5 @@
 pub mod c01;
+pub mod c02;
 pub mod c03;
 pub mod c04;
 pub mod c05;
@@ -6,7 +7,7 @@ pub mod c05;
 use crate::framework::Scenario;
 
 pub fn all() -> Vec<&'static dyn Scenario> {
-    vec![&c01::C01, &c03::C03, &c04::C04, &c05::C05]
+    vec![&c01::C01, &c02::C02, &c03::C03, &c04::C04, &c05::C05]
 }
 
 pub fn by_id(id: &str) -> Option<&'static dyn Scenario> {
